@@ -390,8 +390,13 @@ def run(ctx):
         for r in rng if combs else []:
             start = r.args[0] if len(r.args) >= 2 else ast.Constant(0)
             stop = r.args[1] if len(r.args) >= 2 else (r.args[0] if r.args else None)
-            ok = isinstance(start, ast.Constant) and start.value in (0, 1) and stop is not None and norm(stop) in ("len(s) + 1", "1 + len(s)", "n + 1") and len(r.args) <= 2
-            res.check(ok, "S-CANON", gs.fi.short, norm(r), "all-sizes", "subset sizes do not range over 1..len(s): the hyperedge itself or its smaller faces are missing from the closure", loc(gs.fi, r))
+            pname = gs.fi.params[0].arg if gs.fi.params else "s"
+            stop_t = norm(gs.inline(stop)) if stop is not None else ""
+            good_stops = (f"len({pname}) + 1", f"1 + len({pname})", "n + 1")
+            ok = isinstance(start, ast.Constant) and start.value in (0, 1) and stop is not None and (norm(stop) in good_stops or stop_t in good_stops) and len(r.args) <= 2
+            # positively wrong: the sizes stop before len(s) (the hyperedge itself is missing) or start above 1
+            bad = (isinstance(start, ast.Constant) and isinstance(start.value, int) and start.value > 1) or stop_t in (f"len({pname})", f"len({pname}) - 1")
+            res.add("S-CANON", gs.fi.short, norm(r), "all-sizes", "ok" if ok else ("violation" if bad else "unknown"), "" if ok else "subset sizes do not range over 1..len(s): the hyperedge itself or its smaller faces are missing from the closure", loc(gs.fi, r))
     with res.guard("G-STALE"):
         from ..lints import check_stale_in_loop
 
